@@ -18,6 +18,7 @@
       c ::= a ⋈ b | lv | !lv | c && c | c || c | !c     ⋈ ∈ {==, !=, <, >=, >, <=}; no ordered comparison with
       c ::= … | (e) ⋈ m | m ⋈ (e) | (e) | !(e)          e a tree, m a memory operand or constant            (stage 12)
       c ::= … | (e) ⋈ X | X ⋈ (e)  (also Y)              e a tree that leaves the scratch cell free          (stage 13)
+      c ::= … | s == w | s != w | s | !s                 s a 16-bit variable, w as in stage 6                (stage 14)
       literal 0, not two constants, not two registers, not `t[X] ⋈ X` (element subscripted by a register against a
       register on the right: the real generator compares the register with itself — recorded finding)
   nested to any depth, any length.
@@ -96,6 +97,16 @@
      before. The plain reading (`semPure`, `evalCondP`: no state threaded) agrees outside the compiler's cells
      (`condRun_eqOff`), so `struct_program_correct_pure` is unchanged for the reader. Quiet trees (`quietE`,
      `evalE_quiet`) are the special case whose effect is the identity.
+   * stage 14 (16-bit values in conditions): `s == w`, `s != w`, `if (s)`, `!s` for a 16-bit variable `s` and a 16-bit
+     operand `w` (variable, constant ≤ 65535 — also written on the left —, zero-extended 8-bit variable): the low bytes
+     are subtracted into the scratch cell, the high bytes with the borrow into A (`LDA s ; SEC ; SBC w ; STA cctmp ;
+     LDA s+1 ; SBC w+1`; against literal 0 the bytes themselves), "different" jumps on either byte (`BNE l ; LDA cctmp ;
+     BNE l`), "equal" over an `.ifstart` label. The condition's effect (the scratch write) is threaded as in stage 13;
+     `wide_condition_is_word_compare` shows that the byte-wise test IS the comparison of the two 16-bit values whenever
+     the operands' cells are not the compiler's own. Ordered 16-bit comparisons are outside (recorded findings).
+     Not modelled: after `s++` the real generator knows that the flags describe the 16-bit value and tests `s` by the
+     flags alone; the port forgets the belief there, and the tie leaves out programs that increment a 16-bit variable
+     and test the same one against 0.
    * `fresh_labels`: every label the generator defines is new (counter ranges), the fact behind the
      uniqueness of labels in emitted code (used again by C13).
    * `adc_after_clc`, `sbc_after_sec`, `negate_means_not`, `mirror_means_swap`: the arithmetic and
@@ -436,6 +447,43 @@ example (L : Layout) (m : SrcSt) : condEff L m (.cmpR .ne (.bin (.atom (.of (.va
     = setTmp L m (m.mem.read (L "a") + 1) := by
   simp [condEff_cmpR, treeRun, evalE, evalArithm, plan, planOK, mkPlan, order, ET.isConst, ET.isReg, RA.isConst, RA.isReg,
     evalPlan, Plan.save, leftVal, rval, val, opnd, tmpWrite, BOp.apply]
+
+/-- a condition on a quiet tree (no spill, no push, no register operand through the scratch cell) leaves the state as
+    it found it: the special case in which stage 13's effects are the identity -/
+theorem quiet_tree_condition_no_effect (L : Layout) (m : SrcSt) (op : COp) (e : GExpr) (b : Atom) (eLeft : Bool)
+    (hq : quietE {} e = true) :
+    condEff L m (.cmpE op e b eLeft) = m ∧ condEff L m (.truthE e) = m := by
+  have h : (treeRun L m e).2 = m := by
+    unfold treeRun
+    cases h0 : evalE L m 0 {} e with
+    | none => rfl
+    | some y =>
+      obtain ⟨⟨σ', a'⟩, t, st'⟩ := y
+      have := evalE_quiet L e m 0 {} (σ', a') t st' hq h0
+      cases t <;> simp_all
+  exact ⟨by simp [h], by simp [h]⟩
+
+/-- stage 14: the byte-wise (in)equality test of a 16-bit variable is the comparison of the 16-bit values; the state it
+    leaves differs from the one it found only in the scratch cell -/
+theorem wide_condition_is_word_compare (L : Layout) (σ : SrcSt) (ne : Bool) (s : String) (w : WA)
+    (hn : NoTmp L ([Atom.var s, Atom.el s (.k 1)] ++ w.lo.names ++ w.hi.names)) :
+    evalCond L σ (.wcmp ne s w) = (if ne then wordAt L σ.mem s != wval L σ w else wordAt L σ.mem s == wval L σ w) ∧
+      EqOff L (condEff L σ (.wcmp ne s w)) σ := by
+  obtain ⟨h1, h2⟩ := wcmpRun_word L (EqOff.refl L σ) s w hn
+  refine ⟨?_, by simpa using h2⟩
+  rw [evalCond_wcmp, h1]
+  cases ne
+  · simp only [Bool.false_eq_true, if_false, bne, Bool.not_not]
+  · simp
+
+/-! non-vacuity of stage 14: `while (p != q) p++;` and `if (!p) a++;` -/
+example : (gen none {} (.while (.wcmp true "p" (.wvar "q")) (incW "p"))).1.map GLine.text =
+    ["L:2e7768696c6531", "LDA:70", "SEC:-", "SBC:71", "STA:6363746d70", "LDA:702b31", "SBC:712b31",
+     "BNE:2e6966737461727430", "LDA:6363746d70", "BEQ:2e7768696c65656e6431", "L:2e6966737461727430", "INC:70",
+     "BNE:2e6966656e6432", "INC:702b31", "L:2e6966656e6432", "JMP:2e7768696c6531", "L:2e7768696c65656e6431"] := by decide
+example : (gen none {} (.ifThen (.not (.wcmp true "p" (.wconst 0))) (.flat (.inc (.var "a"))))).1.map GLine.text =
+    ["LDA:70", "STA:6363746d70", "LDA:702b31", "BNE:2e6966656e6431", "LDA:6363746d70", "BNE:2e6966656e6431", "INC:61",
+     "L:2e6966656e6431"] := by decide
 
 /-- a layout that meets the hypotheses of `tree_value_is_plain` (and of `struct_program_correct_pure`): the program's
     cells and `cctmp` in the zero page, below the stack page -/
